@@ -461,6 +461,11 @@ fn format_node<'source>(
 
             group = group.str("import").space_or_indent();
 
+            if items.is_empty() {
+                // An empty item list represents a wildcard import
+                group = group.char('*');
+            }
+
             for (i, ImportItem { item, name }) in items.iter().enumerate() {
                 group = group.nested(0, node, |mut nested| {
                     nested = nested.node(*item);
@@ -959,9 +964,12 @@ impl<'source> FormatContext<'source> {
 
     fn source_slice(&self, span: &Span) -> &'source str {
         let byte_offset = |position: &Position| {
-            self.token_offsets.get(position).copied().unwrap_or_else(|| {
-                (self.line_offsets[position.line as usize] + position.column) as usize
-            })
+            self.token_offsets
+                .get(position)
+                .copied()
+                .unwrap_or_else(|| {
+                    (self.line_offsets[position.line as usize] + position.column) as usize
+                })
         };
         &self.source[byte_offset(&span.start)..byte_offset(&span.end)]
     }
@@ -1736,7 +1744,6 @@ fn render_format_options(options: &StringFormatOptions, constants: &ConstantPool
     if let Some(precision) = options.precision {
         result.push_str(&format!(".{precision}"));
     }
-
     result
 }
 
